@@ -1,0 +1,31 @@
+//go:build verif
+
+// Machine-checked contracts for package utils (read by /verif/bin/gvc; comment-only, adds no declarations).
+package utils
+
+// ---- bufferedReadSeeker: replay buffer against the abstract byte stream of the wrapped reader ----
+//
+// rdStream[r] is the (infinite) byte sequence reader r yields, rdPos[r] how much of it has been consumed.
+
+//@ pure brsOK(b ref) bool = b != nil && b.r != nil && 0 <= b.readHead && b.readHead <= b.writeHead && b.writeHead <= len(b.buf)
+//@   | && rdPos[b.r] >= 0 && b.writeHead == min(rdPos[b.r], len(b.buf))
+//@   | && forall(k, 0, b.writeHead, b.buf[k] == rdStream[b.r][k])
+//@   | && (rdPos[b.r] > len(b.buf) ==> b.readHead == b.writeHead)
+//@ pure brsPos(b ref) int = ite(b.readHead < b.writeHead, b.readHead, rdPos[b.r])
+
+//@ func (*bufferedReadSeeker).Read props(C06,C05,C07)
+//@   requires brsOK(b) && base(p) != base(b.buf)
+//@   assigns b.readHead, b.writeHead, elems(b.buf), elems(p), ghost rdPos[b.r], ghost rdCalls[b.r]
+//@   ensures[C06:inv] brsOK(b)
+//@   ensures[C06:stream-prefix] forall(k, 0, r0, p[k] == rdStream[b.r][old(brsPos(b)) + k])
+//@   ensures[C06:position] brsPos(b) == old(brsPos(b)) + r0
+//@   ensures[C05:one-source-read] rdCalls[b.r] == old(rdCalls[b.r]) + 1
+//@   ensures[C05:returns-what-it-read] r0 >= rdPos[b.r] - old(rdPos[b.r])
+
+//@ func (*bufferedReadSeeker).Seek props(C06,C07)
+//@   requires brsOK(b) && offset <= b.writeHead
+//@   assigns b.readHead
+//@   ensures[C06:inv] brsOK(b)
+//@   ensures[C06:seek-ok] (r1 == nil) <==> (whence == 0 && 0 <= offset && offset < len(b.buf) && b.writeHead < len(b.buf))
+//@   ensures[C06:replayable] r1 == nil ==> brsPos(b) == offset && rdPos[b.r] < len(b.buf)
+//@   ensures[C06:seek-fail-noop] r1 != nil ==> b.readHead == old(b.readHead)
